@@ -34,7 +34,7 @@ func init() {
 			if thorough() {
 				ce = 1
 			}
-			return Oracles{CmpEvery: 8, FreshAtCommit: true, NoWriteBetweenCommits: true, CrashEvery: ce}
+			return Oracles{CmpEvery: 8, FreshAtCommit: true, NoWriteBetweenCommits: true, CrashEvery: ce, QuietAfterEvict: true}
 		},
 		Post: func(e *Engine, cs *Case) error {
 			if err := e.CrashCheck(); err != nil {
